@@ -108,7 +108,7 @@ def run(ids, tier='quick'):
             mods = sorted(set(re.findall(r'^\+\+\+ b/(?:core|eval)/src/(\w+)\.rs', ptxt, re.M)))
             env = dict(ENV, VERIF_ONLY_MODULES=','.join(mods)) if (mods and not os.environ.get('SEED_FULL')) else ENV
             # own property first; if it does not see the change, the checks of the neighbouring properties
-            fallback = [q for q in ('C09', 'C02', 'C04') if q not in props] if not meta.get('run_checks') else []
+            fallback = [q for q in ('C09', 'C02', 'C04') if q not in props] if not (meta.get('run_checks') or os.environ.get('SEED_NO_FALLBACK')) else []
             detected = False
             for p in props + fallback:
                 if detected and p in fallback:
